@@ -278,3 +278,23 @@ type TableSpec struct {
 	Refs []Ref  `json:"refs"`
 	Logs []Log  `json:"logs"`
 }
+
+// Bulk describes very many tiny ref records programmatically (the case value
+// stays small): used to reach the 65535-restart cap of a block.
+type Bulk struct {
+	N    int `json:"n"`
+	Kind int `json:"kind"` // KDel or KSym
+}
+
+// Expand generates the records: names r0000000, r0000001, ...
+func (b Bulk) Expand(min uint64) []Ref {
+	out := make([]Ref, 0, b.N)
+	for i := 0; i < b.N; i++ {
+		r := Ref{Name: Str(fmt.Sprintf("r%07d", i)), Idx: min, Kind: b.Kind}
+		if b.Kind == KSym {
+			r.Target = "t"
+		}
+		out = append(out, r)
+	}
+	return out
+}
